@@ -45,6 +45,7 @@ ServerProfile ServerProfile::fromPlan(const Plan &p)
     s.scramFinalInSuccess = p.knob(QStringLiteral("scramFinalInSuccess"), 0);
     s.scramIter = (int)p.knob(QStringLiteral("scramIter"), 4096);
     s.saltLen = (int)p.knob(QStringLiteral("saltLen"), 16);
+    s.scramExt = (int)p.knob(QStringLiteral("scramExt"), 0);
     s.autoAck = p.knob(QStringLiteral("autoAck"), 1);
     s.autoRoster = p.knob(QStringLiteral("autoRoster"), 1);
     s.assignOtherJid = p.knob(QStringLiteral("otherJid"), 0);
@@ -807,6 +808,12 @@ void ServerConn::handleSaslStart(const QDomElement &el, bool v2)
             sFirst = "r=" + r + ",i=" + iter;
         } else if (sq == QLatin1String("no_i")) {
             sFirst = "r=" + r + ",s=" + s;
+        }
+        // RFC 5802 section 7: server-first-message = [reserved-mext ","] nonce "," salt "," iteration-count ["," extensions];
+        // a client ignores extensions it does not know, but they are part of the AuthMessage both sides sign
+        for (int i = 0; i < p.scramExt; ++i) {
+            static const char *ext[] = { ",x=optional", ",y=b64/+A=", ",z=1" };
+            sFirst += ext[i % 3];
         }
         Q_UNUSED(alg);
         saslStep = 2;
